@@ -173,4 +173,19 @@ def goFunc : Ctor → String
   | .longlat => "LongLat" | .merc => "Merc" | .tmerc => "TMerc" | .utm => "UTM" | .lcc => "LCC"
   | .aea => "AEA" | .eqdc => "EqdC" | .krovak => "Krovak" | .unknown => ""
 
+/-- `projections[strings.ToLower(sr.Name)]` (Proj.go `Transformers`): the registry of /repo/proj, names in
+lower case with blanks written `_` (PROJ.4 short names and the WKT `PROJECTION` names).  Tied to the
+`registerTrans` calls of the source by `tie_Registered`. -/
+def ctorOfName (n : String) : Ctor :=
+  if n == "longlat" || n == "identity" then .longlat
+  else if n == "merc" || n == "mercator" || n == "mercator_1sp" || n == "mercator_auxiliary_sphere"
+    || n == "popular_visualisation_pseudo_mercator" then .merc
+  else if n == "tmerc" || n == "transverse_mercator" then .tmerc
+  else if n == "utm" || n == "universal_transverse_mercator_system" then .utm
+  else if n == "lcc" || n == "lambert_conformal_conic" || n == "lambert_conformal_conic_2sp"
+    || n == "lambert_tangential_conformal_conic_projection" then .lcc
+  else if n == "aea" || n == "albers" || n == "albers_conic_equal_area" then .aea
+  else if n == "eqdc" || n == "equidistant_conic" then .eqdc
+  else if n == "krovak" then .krovak else .unknown
+
 end GeomV.C10
